@@ -339,6 +339,10 @@ class SourceFile:
         for depth, (kind, name) in enumerate(path):
             nn = norm_ws(name) if kind == "impl" else name
             found = [it for it in cands if it.kind == kind and it.name == nn]
+            if len(found) > 1 and kind == "impl" and depth + 1 < len(path):
+                # several impl blocks with the same header: take the one that holds the next step's item
+                k2, n2 = path[depth + 1]
+                found = [it for it in found if any(c.kind == k2 and c.name == n2 for c in self.children(it))]
             if len(found) != 1:
                 raise KeyError("%s: %s %s: %d matches" % (self.path, kind, name, len(found)))
             item = found[0]
